@@ -40,11 +40,11 @@ static const PropInfo kProps[] = {
     {"C14", "fault_enumeration", 200000, 8000000,
      "one case = one seeded history with a target operation; the target's allocation request count N is measured fault-free, then EVERY k in 1..N is failed in fail-once and fail-from-k modes (plus seeded subsets), each on a freshly re-executed history. evaluations = simulated runs (trials); distinct_nontrivial = distinct (history, target result, k, mode) in which the injected failure actually fired",
      ""},
-    {"C15", "exploration", 15000, 600000,
+    {"C15", "exploration", 60000, 2400000,
      "one case = one seeded history of 1..40 allocator calls (malloc/calloc/realloc/reallocarray/free/self-test) with sizes including 0 and values near SIZE_MAX over <= 8 live handles on a manager completed from a malloc/free-only simulated backend, half of the histories with backend failures; checked call by call against a reference model and the backend ledger. distinct_nontrivial = distinct (call-kind, size-class, liveness) sequences of length >= 2",
      ""},
     {"C17", "exploration", 200000, 8000000,
-     "one case = one seeded key/value list (code points 1..255, biased to & = + % space CR LF) composed at EVERY capacity from -1 to required+2, dissected with matching options on one of three managers and compared with the model; or a raw query string dissected, composed and dissected again; or an allocation-failure sweep of dissect/compose-malloc; plus 8 fixed INT_MAX cases on a mirror-mapped 360M-character string. distinct_nontrivial = distinct (op sequence, composed texts) with a round-trip comparison",
+     "one case = one seeded key/value list (code points 1..255, biased to & = + % space CR LF) composed at EVERY capacity from -1 to required+2, dissected with matching options on one of three managers and compared with the model; or a raw query string dissected, composed and dissected again; or an allocation-failure sweep of dissect/compose-malloc; plus 10 fixed INT_MAX cases on a mirror-mapped 360M-character string. distinct_nontrivial = distinct (op sequence, composed texts) with a round-trip comparison",
      ""},
     {"C20", "exploration", 100000, 4000000,
      "one case = one world (two shared read-only URIs, a shared query list, 2..6 tasks each running 1..6 public calls on private outputs) executed once sequentially and once under a seeded schedule (round-robin at allocator calls / 1-3 random change points / random walk) with switches only inside library calls. distinct_nontrivial = distinct complete control-transfer sequences with more than one preemption",
@@ -308,6 +308,14 @@ static int cmd_check(const std::string& self, const std::string& prop, Tier tier
     ev.set("wall_s", wall); ev.set("violations", nviol);
     mkdir(evidence_dir.c_str(), 0755);
     write_file(evidence_dir + "/" + prop + ".json", ev.str(1) + "\n");
+    if (const char* dc = getenv("URISIM_DUMP_COV")) {
+        // guard index, hit flag, PC as offset into the executable image (for llvm-symbolizer); see tools/coverage_by_function.sh
+        std::string out; uintptr_t base = 0;
+        { FILE* m = fopen("/proc/self/maps", "r"); if (m) { unsigned long lo; if (fscanf(m, "%lx-", &lo) == 1) base = lo; fclose(m); } }
+        size_t n = g_pcs_end > g_pcs_beg ? (size_t)(g_pcs_end - g_pcs_beg) / 2 : 0;
+        for (size_t i = 0; i < n; i++) { char b[96]; snprintf(b, sizeof b, "%zu %d 0x%lx\n", i + 1, (int)(i + 1 < all.cov.size() && all.cov[i + 1]), (unsigned long)(g_pcs_beg[2 * i] - base)); out += b; }
+        write_file(dc, out);
+    }
     if (!dump_hashes.empty()) {
         std::sort(hashes.begin(), hashes.end());
         std::string s; for (auto& h : hashes) { char b[64]; snprintf(b, sizeof b, "%lld %016llx\n", h.first, (unsigned long long)h.second); s += b; }
